@@ -20,3 +20,31 @@ Theorem C01_div_rem_truncate :
     a = q * b + r /\ Z.abs r < Z.abs b /\ (r = 0 \/ Z.sgn r = Z.sgn a) /\ q = Z.quot a b /\ r = Z.rem a b.
 Proof. exact div_mod_spec. Qed.
 Print Assumptions C01_div_rem_truncate.
+
+(* the reference prescribes a behaviour for every accepted program: a program accepted by the reference type checker
+   never gets stuck, whatever the fuel (type safety of FerretCore) — the oracle of the correspondence run is total *)
+From FV Require Import Core.Typing Proofs.SafetyP.
+Theorem C01_reference_total : forall p, check_prog p = TOk tt -> forall fuel, run p fuel <> Stuck.
+Proof. exact type_safety. Qed.
+Print Assumptions C01_reference_total.
+
+(* ---- instruction selection of the native back end, over the table regenerated from the emitter on every run ---- *)
+From FV Require Import Models.Qbe Models.ISel Proofs.ISelThm gen.Gen_QbeSel.
+Import ListNotations.
+
+(* for every (operator, type) row and ALL canonical register contents on which the reference is defined, the emitted
+   QBE code returns a canonical register of the result type that denotes the reference result *)
+Theorem C01_isel_sound : forall k f, In (k, f) qbe_code -> sound_q k f.
+Proof. exact isel_qbe_sound. Qed.
+Print Assumptions C01_isel_sound.
+
+Theorem C01_isel_sound_binary : forall o t f, In (KBin o t, f) qbe_code ->
+  forall ra rb, canon t ra -> canon t rb ->
+  forall v, ref (KBin o t) [denote t ra; denote t rb] = Some v ->
+  forall m sp, exists r, qexec f [ra; rb] m sp = Some r /\ canonV (resty (KBin o t)) r /\ denoteV (resty (KBin o t)) r = v.
+Proof. exact isel_qbe_sound_bin. Qed.
+Print Assumptions C01_isel_sound_binary.
+
+Theorem C01_isel_table_covers : covers qbe_code = true.
+Proof. exact (proj1 isel_tables_cover). Qed.
+Print Assumptions C01_isel_table_covers.
